@@ -156,7 +156,18 @@ template <typename In>
 fcppt::container::raw_vector::object<T, A>::object(In const _begin, In const _end, A const &_alloc)
     : impl_(_alloc)
 {
-  this->insert(this->end(), _begin, _end);
+  // The destructor does not run if this constructor throws, so give back what
+  // a single-pass range has already made us allocate.
+  try
+  {
+    this->insert(this->end(), _begin, _end);
+  }
+  catch (...)
+  {
+    this->deallocate();
+
+    throw;
+  }
 }
 
 template <typename T, typename A>
